@@ -16,6 +16,13 @@
 #include "verif.h"
 #include "C14/c14_env.h"
 #include "C14/c14_libc.h"
+/* ghost working directory (see chdir/open/fchdir below) */
+static int g_cwd;		/* 0 home, 1 moved */
+static int g_home_fd = -1;	/* descriptor of the home directory, if open */
+static _Bool g_home_fd_closed;
+static int g_cwd_at_cleanup;
+static _Bool g_fchdir_failed;
+#define MAIN_ENV_CLEANUP_HOOK(status) (g_cwd_at_cleanup = g_cwd)
 #include "C13/main_env.h"
 #include "bin/gensquashfs/src/mkfs.h"
 
@@ -47,6 +54,10 @@ void process_command_line(options_t *opt, int argc, char **argv)
 	opt->cfg.filename = "out.sqfs";
 	opt->cfg.quiet = verif_nd_bool("opt.quiet");
 	opt->cfg.block_size = 131072;
+	/* scan options of --pack-dir: every value (C11.main.scan_cfg) */
+	opt->dirscan_flags = verif_nd_u32("opt.dirscan_flags");
+	opt->force_uid_value = verif_nd_u32("opt.force_uid");
+	opt->force_gid_value = verif_nd_u32("opt.force_gid");
 	opt->selinux = verif_nd_bool("opt.selinux") ? "ctx" : NULL;
 	opt->xattr_file = verif_nd_bool("opt.xattr_file") ? "map" : NULL;
 	opt->sortfile = verif_nd_bool("opt.sortfile") ? "sort" : NULL;
@@ -121,7 +132,15 @@ int sqfs_istream_open_file(sqfs_istream_t **out, const char *path, sqfs_u32 flag
 sqfs_dir_iterator_t *dir_tree_iterator_create(const char *path,
 					      const dir_tree_cfg_t *c)
 {
-	(void)path; (void)c;
+	/* C11: -H / -o / -k ... reach the scan exactly as given: the directory
+	 * scan is configured by the options alone (a dropped DIR_SCAN_NO_HARDLINKS
+	 * makes the image depend on the enumeration order again) */
+	VERIF_ASSERT(c != NULL && c->flags == g_opt->dirscan_flags &&
+		     c->def_uid == g_opt->force_uid_value &&
+		     c->def_gid == g_opt->force_gid_value &&
+		     c->def_mtime == g_ms_writer->fs.defaults.mtime &&
+		     c->prefix == NULL && c->name_pattern == NULL &&
+		     path == g_opt->packdir, "C11.main.scan_cfg");
 	if (pre_fail("dir_iterator.fail"))
 		return NULL;
 	((sqfs_object_t *)&g_dir_it)->refcount = 1;
@@ -163,6 +182,11 @@ int fstree_sort_files(fstree_t *fs, sqfs_istream_t *sortfile)
 	return ms_stage(MS_SORT, "sort_files.fail");
 }
 
+/* The working directory as a ghost: 0 = the directory the tool was started in
+ * (the one a relative output file name refers to), 1 = somewhere else.
+ * chdir() moves away; the only way back is fchdir() on a descriptor obtained
+ * by open(".") while still there. */
+
 int chdir(const char *path)
 {
 	(void)path;
@@ -172,6 +196,44 @@ int chdir(const char *path)
 		g_pre_failed = true;
 		return -1;
 	}
+	g_cwd = 1;
+	return 0;
+}
+
+int open(const char *path, int flags, ...)
+{
+	(void)flags;
+	/* the only open(2) main/pack_files may issue itself: the current directory */
+	VERIF_ASSERT(path != NULL && path[0] == '.' && path[1] == '\0',
+		     "C13.env.open.known_path");
+	if (verif_nd_bool("open_dot.fail")) {
+		g_seq += 1;
+		g_fault = true;
+		g_pre_failed = true;
+		return -1;
+	}
+	if (g_cwd == 0)
+		g_home_fd = 7;
+	return 7;
+}
+
+int fchdir(int fd)
+{
+	VERIF_ASSERT(fd == 7 && !g_home_fd_closed, "C13.env.fchdir.open_descriptor");
+	if (verif_nd_bool("fchdir.fail")) {
+		/* not a fault of the packing run: the way back only matters for
+		 * removing the output of a run that failed for another reason */
+		g_fchdir_failed = true;
+		return -1;
+	}
+	g_cwd = (g_home_fd == 7) ? 0 : 1;
+	return 0;
+}
+
+int close(int fd)
+{
+	VERIF_ASSERT(fd == 7 && !g_home_fd_closed, "C13.env.close.open_descriptor");
+	g_home_fd_closed = true;
 	return 0;
 }
 
@@ -210,6 +272,11 @@ void harness(void)
 	g_sort_opened = g_dir_opened = 0;
 	g_pre_failed = false;
 	g_opt = NULL;
+	g_cwd = 0;
+	g_home_fd = -1;
+	g_home_fd_closed = false;
+	g_cwd_at_cleanup = -1;
+	g_fchdir_failed = false;
 
 	status = tool_main(1, argv);
 
@@ -220,6 +287,13 @@ void harness(void)
 	main_check(status, want, g_pre_failed);
 	VERIF_ASSERT(g_se_closed == g_se_opened && g_sort_destroyed == g_sort_opened &&
 		     g_dir_destroyed == g_dir_opened, "C13.main.releases_input");
+	/* "the packers remove their partial output file": sqfs_writer_cleanup
+	 * unlinks cfg.filename (proved in cleanup.c) - a relative name here -
+	 * so a failing run has to call it from the directory the name refers to */
+	VERIF_ASSERT(g_cleanup_calls == 0 || status == EXIT_SUCCESS ||
+		     g_cwd_at_cleanup == 0 || g_fchdir_failed,
+		     "C13.main.unlink_resolves");
+	VERIF_ASSERT(g_home_fd != 7 || g_home_fd_closed, "C13.main.releases_input");
 	VERIF_COVER(status == EXIT_SUCCESS && g_sort_opened && g_se_opened && g_dir_opened);
 	VERIF_COVER(status == EXIT_SUCCESS && !g_sort_opened && !g_dir_opened);
 	VERIF_COVER(status == EXIT_FAILURE && (g_ms_failed & MS_INIT));
